@@ -400,7 +400,8 @@ class Rewire:
         nr = nonroots(x)
         if not nr:
             return None
-        return dict(drop=_pick(rng, nr))
+        # optionally name the root explicitly: any node, in particular one of a fragment other than the first root's
+        return dict(drop=_pick(rng, nr), root=(_pick(rng, ids_of(x)) if rng.random() < 0.5 else None))
 
     @staticmethod
     def apply(x, p, inplace):
@@ -408,7 +409,7 @@ class Rewire:
         g = x.graph.copy()
         par = dict(zip(x.nodes.node_id.values, x.nodes.parent_id.values))
         g.remove_edge(p['drop'], par[p['drop']])
-        return navis.rewire_skeleton(x, g, inplace=inplace)
+        return navis.rewire_skeleton(x, g, root=p.get('root'), inplace=inplace)
     model = None
 
 
@@ -479,6 +480,38 @@ class Combine:
     model = None
 
 
+@op('via_edges2neuron', inplace_kw=False)
+class ViaEdges:
+    """rebuild through navis.edges2neuron(vertices, edges) - vertices that no edge uses (isolated nodes) included"""
+    @staticmethod
+    def gen(rng, x):
+        return dict(validate=bool(rng.integers(2)))
+
+    @staticmethod
+    def apply(x, p, inplace):
+        import navis
+        nd = x.nodes
+        pos = {int(i): k for k, i in enumerate(nd.node_id.values)}
+        edges = np.array([(pos[int(i)], pos[int(q)]) for i, q in zip(nd.node_id.values, nd.parent_id.values) if q >= 0], dtype=int).reshape(-1, 2)
+        verts = nd[['x', 'y', 'z']].values.astype(float)
+        return navis.edges2neuron(edges, vertices=verts, validate=p['validate'])
+    model = None
+
+
+@op('via_nx2neuron', inplace_kw=False)
+class ViaNx:
+    """rebuild through navis.nx2neuron(x.graph)"""
+    @staticmethod
+    def gen(rng, x):
+        return dict()
+
+    @staticmethod
+    def apply(x, p, inplace):
+        import navis
+        return navis.nx2neuron(x.graph.copy())
+    model = None
+
+
 # ---- the same operations reached through TreeNeuron METHODS (these carry their own copy / cache-clearing code)
 @op('m_reroot')
 class MReroot(Reroot):
@@ -545,4 +578,4 @@ METHODS = ['m_reroot', 'm_prune_distal_to', 'm_prune_proximal_to', 'm_prune_twig
 STRUCTURAL = ['reroot', 'reroot_seq', 'subset', 'cut_distal', 'cut_proximal', 'prune_twigs', 'prune_by_strahler',
               'prune_at_depth', 'longest_neurite', 'drop_fluff', 'downsample', 'remove_nodes', 'insert_nodes',
               'mul', 'add', 'copy', 'pickle', 'smooth', 'despike', 'heal', 'resample', 'merge_duplicate_nodes',
-              'rewire', 'break_fragments', 'stitch', 'combine'] + METHODS
+              'rewire', 'break_fragments', 'stitch', 'combine', 'via_edges2neuron', 'via_nx2neuron'] + METHODS
